@@ -116,25 +116,16 @@ func (c *Encoder) encodeStruct(v reflect.Value) {
 
 	vtyp := v.Type()
 
+	// first pass: fields sharing one flag bit are a group, which is present when at least one
+	// of its fields is non-zero; then EVERY field of the group must be written, zero ones too
 	for i := 0; i < v.NumField(); i++ {
-		// THIS PART is appending to object meta value, that actually don't writing in real encodeValue
-		if hasFlagsField && flagIndex == i {
-			tmpObjects = append(tmpObjects, reflect.ValueOf(0))
-		}
-
 		info, err := parseTag(vtyp.Field(i).Tag)
 		if err != nil {
 			c.err = errors.Wrapf(err, "parsing tag of field %v", vtyp.Field(i).Name)
 			return
 		}
 
-		if info == nil {
-			// если тега нет, то это обязательное поле, значит 100% записываем
-			tmpObjects = append(tmpObjects, v.Field(i))
-			continue
-		}
-
-		if info.ignore {
+		if info == nil || info.ignore {
 			continue
 		}
 
@@ -143,17 +134,32 @@ func (c *Encoder) encodeStruct(v reflect.Value) {
 			return
 		}
 
-		fieldVal := v.Field(i)
-		if !fieldVal.IsZero() {
-			// тег есть, это 100% опциональное поле
+		if !v.Field(i).IsZero() {
 			flag |= 1 << info.index
-			if info.encodedInBitflag {
-				continue
-			}
+		}
+	}
 
+	for i := 0; i < v.NumField(); i++ {
+		// THIS PART is appending to object meta value, that actually don't writing in real encodeValue
+		if hasFlagsField && flagIndex == i {
+			tmpObjects = append(tmpObjects, reflect.ValueOf(0))
+		}
+
+		info, _ := parseTag(vtyp.Field(i).Tag) // error is already checked in first pass
+
+		if info == nil {
+			// если тега нет, то это обязательное поле, значит 100% записываем
 			tmpObjects = append(tmpObjects, v.Field(i))
-
 			continue
+		}
+
+		if info.ignore || info.encodedInBitflag {
+			continue
+		}
+
+		// тег есть, это 100% опциональное поле
+		if flag&(1<<info.index) != 0 {
+			tmpObjects = append(tmpObjects, v.Field(i))
 		}
 	}
 
